@@ -46,7 +46,7 @@ CLAIMS = {
    design="§3 C11"),
  "C01": dict(
    engine="persist+periodic",
-   technique="Lean 4 proof (disk invariant preserved by every logical action of every operation => every kill point recovers) + kill-point and power-loss enumeration against the real recover + periodic-fsync clause with the server's timer calls extracted from source",
+   technique="Lean 4 proof (disk invariant preserved by every logical action of every operation => every kill point recovers; periodic-fsync protocol: every power-loss outcome is a prefix of the acknowledged history covering everything older than one interval) + kill-point and power-loss enumeration against the real recover + correspondence of the periodic protocol model with the real engine under a virtual clock (timer calls extracted from source)",
    text="Theorem C01_kill_point: after ANY history (inserts, overwrites, deletes, metadata updates, manual/automatic snapshots, "
         "rotation, segment compaction, restarts), killing the process after ANY prefix of the next operation's file-system actions "
         "(start-up included) leaves a directory whose strict recovery succeeds and yields the acknowledged documents or those plus "
@@ -59,10 +59,15 @@ CLAIMS = {
         "directories per quick run) is recovered by the real code under the same oracle. PERIODIC clause: the calls the server's "
         "periodic task makes are extracted from kyrodb_server.rs on every run (translators/xlate_timer.py) and replayed under a "
         "virtual clock on an engine with FsyncPolicy::Periodic; every power-loss directory must contain every operation acknowledged "
-        "more than one interval earlier. Two genuine defects found and repaired (fixes 89a0367, be0c955).",
+        "more than one interval earlier; the same op lines run through the protocol model Persist/Periodic.lean (theorems "
+        "C01_periodic_outcome_is_covering_prefix, C01_periodic_old_acks_survive, witness "
+        "C01_periodic_unsynced_outgoing_segment_loses_old_ack): acknowledgements equal, every real power-loss outcome a model "
+        "outcome, the model's synced-only outcome among the real ones. Three genuine defects found and repaired (fixes 89a0367, "
+        "be0c955, c353f41).",
    note="Proved for the process-kill model at logical-action granularity; torn-frame invisibility and atomic publication are "
-        "byte/OS-level facts validated by the enumeration. The power-loss model and the periodic clause are decided by enumeration "
-        "over generated histories, not by a theorem (whole-file granularity for un-synced bytes). Trusted: Lean kernel, hand model "
+        "byte/OS-level facts validated by the enumeration. Power loss under fsync-every-write is decided by enumeration over generated "
+        "histories, not by a theorem (whole-file granularity for un-synced bytes); the periodic protocol model covers rotation off / "
+        "after every write and restarts, not byte-threshold rotation or snapshots (oracle only there). Trusted: Lean kernel, hand model "
         "validated by correspondence, FS shim, timer translator (fails closed on an unknown engine call).",
    design="§3 C01"),
  "C02": dict(
@@ -146,9 +151,13 @@ CLAIMS = {
         "SSE2, NEON — reads lanes inside the slice for EVERY length, incl. lengths not a multiple of the width), proved by omega; "
         "C17_vector_in_bounds / C17_neighbor_in_bounds / C17_count_in_bounds / C17_visited_in_bounds / C17_len_exact over the "
         "generated PackedLevel0 and visited-bitset arithmetic for every cap, dimension and node count; C17_*_translation_complete "
-        "(translators resolved every access; site count = obligation count); C17_neighbour_ids_guarded (lint). Tie: translators "
+        "(translators resolved every access; site count = obligation count); C17_neighbour_ids_guarded, C17_neighbour_indices_guarded "
+        "(+ C17_guarded_index_in_bounds), C17_pointer_arithmetic_bounded (+ C17_record_ptr_in_bounds) (lints of id arguments, index "
+        "arguments and raw pointer arithmetic). Tie: translators "
         "re-read the current source; every kernel wrapper is executed on guard-page-abutted slices of each length 0..130+ and the "
-        "real HNSW index is built/searched under an allocator that ends every block at a PROT_NONE page.",
+        "real HNSW index is built/searched under an allocator that ends every block at a PROT_NONE page, with forced graph degrees "
+        "M 4..64 at dimension 1/2/15 in a debug-assertion build (std's get_unchecked precondition checks); thorough tier: Miri "
+        "scenarios (corpus/C17/*_miri.rs). One defect fixed: 7214c4a (out-of-allocation pointer arithmetic in the prefetch look-ahead).",
    note="Partial: that every dense id reaching an `_unchecked` accessor is below the node count (graph-closure invariant of HNSW "
         "construction) is linted and exercised, not proved; over-reads inside spare Vec capacity are invisible to the fence; usize "
         "overflow not modelled; NEON proved but not executed on this host. Trusted: Lean kernel, the two translators, the "
@@ -248,7 +257,7 @@ CLAIMS = {
    design="§3 C06"),
  "C07": dict(
    engine="qcache+tiered",
-   technique="Lean 4 proof (cache model: served-entry, reverse invalidation, exact boundary decision, generation guard over any history; Mathlib lemma: pre-filter bounds dominate the exact quantities over the reals) + differential correspondence with boundary-stress vectors + engine-level freshness oracle",
+   technique="Lean 4 proof (cache model: served-entry, reverse invalidation, exact boundary decision, generation guard over any history; Mathlib lemma: pre-filter bounds dominate the exact quantities over the reals) + differential correspondence with boundary-stress vectors + engine-level freshness oracle + controlled-scheduler exploration of one searcher against one writer on the real engine",
    text="C07_served_entry (same scope, requested k >= wanted k, a prefix of a stored entry), C07_deleted_doc_not_served + "
         "C07_only_store_adds + C07_unmentioned_stays (a deleted/overwritten document is not served from an older result, through "
         "any store-free history), C07_kept_entry_is_unaffected + C07_keep_means_strictly_outside (a surviving entry is full and the "
@@ -260,10 +269,12 @@ CLAIMS = {
         "of and judged against the write log (exists now, current vector's distance, nothing written since strictly inside the "
         "boundary as a fresh search would report it, scope, k).",
    note="Partial: float rounding inside the pre-filter is exercised (256-ulp band reported ambiguous), not proved; the schedule half "
-        "(store-after-invalidate race between a searching and a writing thread) is proved on the sequential model only - the "
-        "re-check under the write lock is read, not explored by a scheduler; the tiered model abstains on cached answers (oracle "
+        "(store-after-invalidate race between a searching and a writing thread) is proved on the sequential cache model and "
+        "EXPLORED on the real engine (nine writers x one cacheable search, every schedule at lock granularity with preemption "
+        "bound 2/3; afterwards the cacheable search must answer what the same search past the cache answers) - exploration, not "
+        "proof; the tiered model abstains on cached answers (oracle "
         "only). Similarity hits (cosine > 0.52 by default) serve ANOTHER query's fresh entry by design: judged relative to the "
-        "stored query, as the statement's clauses are. One defect fixed: d496037.",
+        "stored query, as the statement's clauses are. Two defects fixed: d496037, 5d69348 (torn hot-tier scan, found by the exploration).",
    design="§3 C07"),
  "C08": dict(
    engine="conc",
